@@ -596,6 +596,15 @@ def ite(c, a, b):
         return ite(conj([c, a.args[0]]), a.args[1], b)
     if isinstance(b, App) and b.fn == "ite" and len(b.args) == 3 and b.args[1] == a:
         return ite(disj([c, b.args[0]]), a, b.args[2])
+    # a selection by comparison of its own arms is their minimum / maximum: `if a < b: x = a else: x = b`
+    if isinstance(c, App) and c.fn in ("lt0", "le0") and len(c.args) == 1:
+        pa, pb, pc_ = to_poly(a), to_poly(b), to_poly(c.args[0])
+        if pa is not None and pb is not None and pc_ is not None and not (pa - pb).is_const():
+            from .simp import mk_app
+            if pc_.t == (pa - pb).t:
+                return mk_app("min", [a, b])
+            if pc_.t == (pb - pa).t:
+                return mk_app("max", [a, b])
     return App("ite", (c, a, b))
 
 
